@@ -1,0 +1,39 @@
+"""Verification hooks (add-only). Inactive unless the environment variable REX_VERIF=1 is set.
+
+`gate(name, **ctx)` is called at a few points of the asynchronous runtime. With REX_VERIF unset it is a
+no-op that is never reached (call sites test `ENABLED` first). With REX_VERIF=1 a controller may be
+registered with `set_controller(fn)`; it is then called as `fn(name, ctx)` from the calling thread and may
+block that thread (deterministic scheduling), sleep (perturbation), or record the event.
+"""
+
+import os
+
+ENABLED = os.environ.get("REX_VERIF", "0") == "1"
+
+_controller = None
+
+
+def set_controller(fn):
+    global _controller
+    _controller = fn
+
+
+def gate(name, **ctx):
+    c = _controller
+    if c is not None:
+        c(name, ctx)
+
+
+def wrap_task(owner, fn):
+    """Wrap a task submitted to a wrapper's single-worker executor with start/end gates."""
+    name = getattr(fn, "__name__", "task")
+
+    def _task(*args, **kwargs):
+        gate("task_start", owner=owner, fn=name)
+        try:
+            return fn(*args, **kwargs)
+        finally:
+            gate("task_end", owner=owner, fn=name)
+
+    _task.__name__ = name
+    return _task
